@@ -290,10 +290,20 @@ func (in Input) base() []byte {
 	case "html_meta":
 		labels := []string{"utf-8", "ISO-8859-2", "windows-1251", "Shift_JIS", "koi8-r", "x-user-defined"}
 		pad := strings.Repeat(" ", clamp(p, 0, 1<<16))
-		return []byte("<!DOCTYPE html>\n" + pad + "<html><head><meta charset=\"" + labels[v%len(labels)] + "\"><title>t</title></head><body>" + string(textN(clamp(n, 0, 1<<16), in.Seed)) + "</body></html>")
+		label := labels[v%len(labels)]
+		if v >= 2*len(labels) {
+			// a label of its own: the declared charset is taken from the input, so the set of
+			// distinct results a process has seen is as large as the inputs make it
+			label = fmt.Sprintf("x-verif-cs-%d-%d", v, in.Seed)
+		}
+		return []byte("<!DOCTYPE html>\n" + pad + "<html><head><meta charset=\"" + label + "\"><title>t</title></head><body>" + string(textN(clamp(n, 0, 1<<16), in.Seed)) + "</body></html>")
 	case "xml_enc":
 		labels := []string{"UTF-8", "ISO-8859-1", "windows-1252", "EUC-JP"}
-		return []byte("<?xml version=\"1.0\" encoding=\"" + labels[v%len(labels)] + "\"?>\n<root>" + string(textN(clamp(n, 0, 1<<16), in.Seed)) + "</root>")
+		label := labels[v%len(labels)]
+		if v >= 2*len(labels) {
+			label = fmt.Sprintf("x-verif-enc-%d-%d", v, in.Seed)
+		}
+		return []byte("<?xml version=\"1.0\" encoding=\"" + label + "\"?>\n<root>" + string(textN(clamp(n, 0, 1<<16), in.Seed)) + "</root>")
 	case "json", "json_trunc", "json_bad":
 		var b bytes.Buffer
 		b.WriteString("{")
